@@ -122,6 +122,10 @@ def translate_job(args: Dict[str, Any]) -> Dict[str, Any]:
         # optional earlier queries handled by the SAME executor object (their outcome is not the subject)
         for k, pq in enumerate(args.get("pre_queries", [])):
             try:
+                if isinstance(pq, dict):   # an earlier query of ANOTHER backend in this process (an executor of its own)
+                    exe2 = executor_for(pq["backend"])
+                    exe2.write_cpp_files(exe2.apply_ast_transformations(parse_query(pq["query"])), out.parent / (out.name + f"_pre{k}"))
+                    continue
                 exe.write_cpp_files(exe.apply_ast_transformations(parse_query(pq)), out.parent / (out.name + f"_pre{k}"))
             except BaseException:  # noqa: B036
                 pass
